@@ -3,6 +3,7 @@ package bmreqs
 import (
 	"errors"
 	"fmt"
+	"sort"
 	"strings"
 )
 
@@ -84,6 +85,7 @@ func (o *objectSet) getReqs() string {
 	for k := range o.set {
 		keys = append(keys, k)
 	}
+	sort.Strings(keys)
 	return fmt.Sprint(strings.Join(keys, ","))
 }
 
@@ -112,6 +114,7 @@ func (o *objectSet) listSub() []string {
 	for k := range o.set {
 		keys = append(keys, k)
 	}
+	sort.Strings(keys)
 	return keys
 }
 
